@@ -88,7 +88,7 @@ CHECKS["C01"] = dict(
 CHECKS["C02"] = dict(
    category="exploration",
    technique="bounded-exhaustive enumeration of programs x optimiser pipelines (every on/off configuration, every pass alone and after CCP, via hook H1) on the real optimiser; differential oracle: an MIR interpreter run on the unoptimised vs the optimised MIR",
-   text="Loop family: complete product of 12 guard forms (i<B, i<=B, i>B, i>=B, i!=B, mirrored forms, i*2<B, i+1<B) x strides {1,2,-1,1e9} (quick) / {1,2,3,-1,-2,+-1e9} (thorough) x 10/13 updates (accumulating, derived i*3 / i*3+1 / i*-2, printing, overwriting) x 2/4 results x 3/7 literal bounds incl. INT_MAX neighbourhood x both counter names, each called with every start around the bound (and two starts whose derived value i*3 wraps) from literal and run-time arguments; plus an operand-order family (9 operators x 10 inner forms `x +- c` x constant left/right x 5 constants x 9 run-time values, inline and let-bound), an inline-permutation family (a small callee called with all 27 argument tuples over the caller's identically named parameters, functions and methods), a dead-effect family (9 unused but possibly trapping or printing computations - division / modulo by a run-time zero, INT_MIN / -1, printing and panicking calls, out-of-bounds Vec access - x straight-line / taken branch / untaken branch / loop body / function value), and the C01 program families (every 8th program of the three largest families quick / all thorough). Each program is lowered by the real pipeline and pushed through 8 (quick) / all 32 (thorough) optimiser configurations and each of the 8 passes alone and after CCP; the optimised MIR must print the same lines and end the same way as the unoptimised MIR under mirsem, with 16x the fuel (introduced non-termination is a violation), must keep main, and the optimiser must not panic. Runs whose unoptimised execution overflows i32 in + - * are dropped (left open by the language). Sub-pass firing counters (LICM, algebraic, IV elimination, strength reduction) are reported; all fire in both tiers.",
+   text="Loop family: complete product of 12 guard forms (i<B, i<=B, i>B, i>=B, i!=B, mirrored forms, i*2<B, i+1<B) x strides {1,-1,1e9} (quick) / {1,2,3,-1,-2,+-1e9} (thorough) x 10/13 updates (accumulating, derived i*3 / i*3+1 / i*-2, printing, overwriting) x 2/4 results x 3/7 literal bounds incl. INT_MAX neighbourhood x both counter names, each called with every start around the bound (and two starts whose derived value i*3 wraps) from literal and run-time arguments; plus an operand-order family (9 operators x 10 inner forms `x +- c` x constant left/right x 5 constants x 9 run-time values, inline and let-bound), an inline-permutation family (a small callee called with all 27 argument tuples over the caller's identically named parameters, functions and methods), a dead-effect family (9 unused but possibly trapping or printing computations - division / modulo by a run-time zero, INT_MIN / -1, printing and panicking calls, out-of-bounds Vec access - x straight-line / taken branch / untaken branch / loop body / function value), and the C01 program families (every 8th program of the three largest families quick / all thorough). Each program is lowered by the real pipeline and pushed through 8 (quick) / all 32 (thorough) optimiser configurations and each of the 8 passes alone and after CCP; the optimised MIR must print the same lines and end the same way as the unoptimised MIR under mirsem, with 16x the fuel (introduced non-termination is a violation), must keep main, and the optimiser must not panic. Runs whose unoptimised execution overflows i32 in + - * are dropped (left open by the language). Sub-pass firing counters (LICM, algebraic, IV elimination, strength reduction) are reported; all fire in both tiers.",
    note="Trusted: mirsem (bound to refsem/Wasm by setup selftest on tests/ programs); back ends are not re-run per pipeline (C01/C04 run them on the default configuration). IV elimination's guard rewrite is genuinely wrong for most guard forms (known finding C02-K1, pinned by the repository's loop_optimization tests): deviations of loops with update acc:=i*3 / result acc under a pipeline containing the loop pass are therefore not detected.",
    design_ref="DESIGN.md §5 C02, §10.2")
 CHECKS["C03"] = dict(
